@@ -39,6 +39,7 @@ struct Opts {
     selfty: Option<String>, // replace `Self` by this type in signature/body (for items moved out of their impl)
     nofmt: bool,            // R5 off
     unwrap_default: bool,
+    r3calls: Vec<(String, usize)>, // callee -> number of generics R3 added to it (turbofish call sites get that many `_`)
 }
 
 fn parse_opts(s: &str) -> Opts {
@@ -66,6 +67,7 @@ fn parse_opts(s: &str) -> Opts {
             "pure_exit" => o.pure_exit = true,
             "selfty" => o.selfty = Some(v.to_string()),
             "nofmt" => o.nofmt = true,
+            "r3calls" => o.r3calls = list().iter().filter_map(|x| x.split_once(':').map(|(a, b)| (a.to_string(), b.parse().unwrap_or(1)))).collect(),
             _ => { eprintln!("xt: unknown option {k}"); std::process::exit(3); }
         }
     }
@@ -368,6 +370,18 @@ impl VisitMut for Rw {
                 *e = parse_quote!(match #inner { Ok(__v) => __v, Err(__e) => return Err(QFrom::qfrom(__e)) });
             }
             Expr::Call(c) => {
+                // R3 at call sites: explicit turbofish gets one `_` per generic that R3 added to the callee
+                if let Expr::Path(p) = &mut *c.func {
+                    if let Some(seg) = p.path.segments.last_mut() {
+                        let name = seg.ident.to_string();
+                        if let Some((_, n)) = self.o.r3calls.iter().find(|(f, _)| *f == name) {
+                            if let syn::PathArguments::AngleBracketed(ab) = &mut seg.arguments {
+                                for _ in 0..*n { ab.args.push(parse_quote!(_)); }
+                                self.bump("R3");
+                            }
+                        }
+                    }
+                }
                 let last = path_last(&c.func);
                 let full = path_str(&c.func);
                 if let (Some(last), Some(full)) = (last, full) {
@@ -799,6 +813,24 @@ fn list_invocations(items: &[Item], name: &str, out: &mut Vec<String>) {
     }
 }
 
+// R23: a top-level `let x = ..;` that shadows parameter `x` is alpha-renamed to `x__1` (so contracts can still name the parameter)
+struct IdentRename { from: String, to: String }
+impl VisitMut for IdentRename {
+    fn visit_expr_path_mut(&mut self, p: &mut syn::ExprPath) {
+        if p.qself.is_none() && p.path.is_ident(&self.from) { let id = format_ident!("{}", self.to); p.path = parse_quote!(#id); }
+    }
+    fn visit_macro_mut(&mut self, m: &mut syn::Macro) {
+        let from = self.from.clone(); let to = self.to.clone();
+        fn go(ts: TokenStream, from: &str, to: &str) -> TokenStream {
+            ts.into_iter().map(|t| match t {
+                TokenTree::Ident(ref i) if i == from => TokenTree::Ident(proc_macro2::Ident::new(to, i.span())),
+                TokenTree::Group(g) => { let mut ng = proc_macro2::Group::new(g.delimiter(), go(g.stream(), from, to)); ng.set_span(g.span()); TokenTree::Group(ng) }
+                other => other,
+            }).collect()
+        }
+        m.tokens = go(m.tokens.clone(), &from, &to);
+    }
+}
 // R21: `mut self` receiver -> `self` + `let mut __self = self;` with `self` renamed in the body
 struct SelfRename;
 impl VisitMut for SelfRename {
@@ -881,6 +913,23 @@ fn emit_fn(key: &str, file: &str, mut sig: syn::Signature, mut block: syn::Block
         }
     }
     for g in extra { sig.generics.params.push(syn::parse2(g).unwrap()); }
+    // R23
+    {
+        let params: Vec<String> = sig.inputs.iter().filter_map(|a| if let FnArg::Typed(pt) = a { if let syn::Pat::Ident(pi) = &*pt.pat { Some(pi.ident.to_string()) } else { None } } else { None }).collect();
+        let n = block.stmts.len();
+        for i in 0..n {
+            let shadow: Option<String> = if let Stmt::Local(l) = &block.stmts[i] {
+                if let syn::Pat::Ident(pi) = &l.pat { let nm = pi.ident.to_string(); if params.contains(&nm) { Some(nm) } else { None } } else { None }
+            } else { None };
+            if let Some(nm) = shadow {
+                let to = format!("{}__1", nm);
+                if let Stmt::Local(l) = &mut block.stmts[i] { if let syn::Pat::Ident(pi) = &mut l.pat { pi.ident = format_ident!("{}", to); } }
+                let mut ir = IdentRename { from: nm.clone(), to };
+                for j in (i + 1)..n { ir.visit_stmt_mut(&mut block.stmts[j]); }
+                rw.bump("R23");
+            }
+        }
+    }
     rw.visit_block_mut(&mut block);
     // anchors after every top-level statement (not after the tail expression)
     {
